@@ -919,3 +919,43 @@ REGISTRY["C16"] = dict(
                "handler.serve.enter stretched (a frame appended on sight of .registered must be processed). Tie: as C14 "
                "with re-registrations, unregisters, invalid scripts, several names and contexts.",
     level_note=HANDLER_NOTE, assumptions=["at most one instance per (context, name) follows from: a new .register is delivered to the old instance (same context), which stops"])
+
+
+# ---------------------------------------------------------------------------------------------
+# codec (C12)
+from . import codecengine as CE
+
+
+def c12_run(ctx):
+    nv, ns = (300, 1500) if ctx.tier == "quick" else (4000, 50000)
+    r = CE.run(ctx.rnd.randrange(1, 10 ** 9), nv, ns)
+    for v in r["violations"][:6]:
+        if v.get("no_input"):
+            ctx.violation(v["what"], dict(engine="S-codec", theorem_or_correspondence="xsv codec"), no_input=True)
+        else:
+            ctx.violation(v["what"][:600], dict(engine="S-codec", input=v.get("input")))
+    st = r["stats"]
+    ctx.coverage.update(dict(
+        evaluations=sum(st[k] for k in ("ttl_values", "ttl_strings", "ttl_queries", "ro_values", "ro_queries")),
+        distinct_nontrivial=st["accepted"],
+        rule="one evaluation = one value or string pushed through the real parse_ttl / TTL serde / TTL::from_query / "
+             "ReadOptions::to_query_string / ReadOptions::from_query and through the extracted grammar: structured values at the "
+             "boundaries (0, 1, 2^32-1, 2^32, 2^63, 2^64-1) and random ones are printed by both sides and parsed back; strings "
+             "within a few edits of the grammar (signs, spaces, leading zeros, non-ASCII digits, overflow) and option strings over "
+             "the option alphabet (duplicates, unknown keys, bad ids) must be accepted/rejected identically with identical values; "
+             "distinct_nontrivial = inputs the implementation accepted",
+        traces_validated_against_impl=1, input_distribution=st, samples=r.get("samples", [])))
+
+
+REGISTRY["C12"] = dict(
+    prop_file="Props/C12.v", engine="S", run=c12_run,
+    replay=lambda ctx, obj: c12_run(ctx),
+    level_text="Coq, by induction on digits (no enumeration): every well-formed TTL survives its string form and its query "
+               "form; whatever parse_ttl accepts is well formed (never head:0 / out of range); decimal print/parse round trip "
+               "with the u64/u32/usize bounds; ReadOptions (all follow modes with ms heartbeats, tail, last-id, limit, context) "
+               "survive client encoding -> server parser; duplicates rejected, unknown keys ignored. Tie: the real parsers and "
+               "printers on thousands of structured values and near-grammar strings vs the extracted grammar.",
+    level_note=TRUSTED + "JSON syntax, percent-encoding and the scru128 text form are oracles. 'Every accepted frame decodes again' is "
+               "carried by the store checks (every frame written is read back through fjall+serde in C01/C05); a meta nested "
+               "deeper than serde_json's recursion limit can only be produced by a Nushell script and is not covered here.",
+    assumptions=["heartbeat durations are whole milliseconds < 2^64 (Duration::from_millis is the only constructor any entry point uses)"])
